@@ -870,7 +870,12 @@ func eqnil(t types.Type, x, y value) bool {
 		case *closure:
 			return (x != nil) == (y.(*ssa.Function) != nil)
 		case []value:
+			if _, ok := y.([]value); !ok {
+				return false // y is an abstract (non-nil) byte string, x the nil literal
+			}
 			return (x != nil) == (y.([]value) != nil)
+		case *absBytes, *wireBlob:
+			return false // abstract byte strings are never nil; the other operand is the nil literal
 		}
 		panic(fmt.Sprintf("eqnil(%s): illegal dynamic type: %T", t, x))
 	}
@@ -1068,6 +1073,8 @@ func callBuiltin(caller *frame, callpos token.Pos, fn *ssa.Builtin, args []value
 			return len((*x).(array))
 		case []value:
 			return len(x)
+		case *absBytes:
+			return caller.i.p.byteLen(x.t)
 		case *gomap:
 			return x.len()
 		case *channel:
